@@ -60,6 +60,10 @@ def gen(ctx):
     return facts if ok else None
 
 
+# never let `go test` rewrite /repo/node/go.mod (vlib sets GOFLAGS=-mod=mod; the command-line flag wins)
+READONLY = ("-mod=readonly",)
+
+
 def classify(clause, case, verdict):
     return clause
 
@@ -73,15 +77,17 @@ def run(ctx):
 
     total = 0
     samples = []
+    tot = {}
     # ---- 1. the dispatcher loop
     ov = ctx.overlay({"node/cmd/guardiand/zz_verif_c17_test.go": "guardiand/c17_reobserve_verif_test.go"}, p2p_stub=True)
     if ov is not None:
-        rc, out = ctx.go_test("node", "./cmd/guardiand", "^TestVerifC17Reobserve$", ov, env=env)
+        rc, out = ctx.go_test("node", "./cmd/guardiand", "^TestVerifC17Reobserve$", ov, env=env, extra=READONLY)
         cases = os.path.join(ctx.work, "reobserve.cases")
         if rc != 0 or not os.path.exists(cases):
             ctx.broken.append(("tie", "go-harness:guardiand", out[-800:]))
         else:
             n_ok, stats = ctx.judge("reobserve", cases, classify)
+            tot = dict(stats)
             kinds = {}
             with open(cases) as f:
                 for ln in f:
@@ -96,12 +102,15 @@ def run(ctx):
             ctx.cov["distinct_nontrivial"] += n_ok
     # ---- 2. PostObservationRequest
     ov2 = ctx.overlay({"node/pkg/common/zz_verif_c17_post_test.go": "common/c17_post_verif_test.go"})
-    rc, out = ctx.go_test("node", "./pkg/common", "^TestVerifC17Post$", ov2)
+    rc, out = ctx.go_test("node", "./pkg/common", "^TestVerifC17Post$", ov2, extra=READONLY)
     cases2 = os.path.join(ctx.work, "reobserve_post.cases")
     if rc != 0 or not os.path.exists(cases2):
         ctx.broken.append(("tie", "go-harness:common", out[-800:]))
     else:
         n_ok, stats = ctx.judge("reobserve", cases2, classify)
+        for k, v in stats.items():
+            tot[k] = tot.get(k, 0) + v
+        ctx.cov["driver_stats"] = tot      # judge() overwrites driver_stats per call: keep the sum of both runs
         with open(cases2) as f:
             lines = f.readlines()
         total += len(lines)
